@@ -172,7 +172,7 @@ func DriveC04(w *ev.Writer, o Opts) {
 				continue
 			}
 			var tx2 tlb.Transaction
-			decSrc(w, "REENC", "Transaction", tc, &tx2, where)
+			decSrc(w, "DECSRC", "Transaction", tc, &tx2, where)
 			// the raw message cells: ^[ in_msg:(Maybe ^(Message Any)) out_msgs:(HashmapE 15 ^(Message Any)) ] is the first reference
 			refs := tc.Refs()
 			if len(refs) == 0 {
